@@ -1,5 +1,6 @@
 import TypedpyModel.Props.C04
 import TypedpyModel.Props.C04Subclass
+import TypedpyModel.Props.C04Alias
 #print axioms Typedpy.C04.immutable_step_frozen
 #print axioms Typedpy.C04.immutable_step_state
 #print axioms Typedpy.C04.immutable_run_frozen
@@ -20,3 +21,15 @@ import TypedpyModel.Props.C04Subclass
 #print axioms Typedpy.C04.sealed_ancestor_not_subclassable
 #print axioms Typedpy.C04.immutable_field_not_subclassable
 #print axioms Typedpy.C04.subclass_example
+#print axioms Typedpy.C04.reads_frozen
+#print axioms Typedpy.C04.reads_keep_separation
+#print axioms Typedpy.C04.immutable_structure_reads_frozen
+#print axioms Typedpy.C04.immutable_field_reads_frozen
+#print axioms Typedpy.C04.ctor_separates
+#print axioms Typedpy.C04.ctor_then_reads_frozen
+#print axioms Typedpy.C04.tables_accessors_safe
+#print axioms Typedpy.C04.tables_ctor_no_retention
+#print axioms Typedpy.C04.usesTable_safe
+#print axioms Typedpy.C04.immutable_structure_reads_frozen_current
+#print axioms Typedpy.C04.accessor_example
+#print axioms Typedpy.C04.raw_accessor_leaks
